@@ -412,6 +412,8 @@ def count_and_time_step(repo, rep):
 
 
 def run(repo, rep, tier):
+    from .round7b import hygiene
+    hygiene(repo, rep, "C19", ('wavespectra.partition.tracking', 'wavespectra.partition.partition'), falsy=False)
     rep.rule("R-C19-11", "no tracking threshold is defaulted with `p or <non-zero constant>`: a tolerance of 0 (nothing may be continued) is a legitimate argument")
     from .round7 import falsy_zero_defaulting
     falsy_zero_defaulting(repo, rep, "R-C19-11", ("wavespectra.partition.tracking", "wavespectra.partition.partition"), floor=15)
